@@ -1299,7 +1299,17 @@ def check_chain(root: str, sets, members, rng: random.Random, stats=None) -> lis
     try:
         ch = FileSystemChain()
         order: list[tuple] = []
-        for kind, j, pfx, prio in members:
+        for n_added, (kind, j, pfx, prio) in enumerate(members):
+            if n_added:
+                # the chain is used between the add_sys calls (a program mounts, looks something up, mounts more):
+                # nothing the earlier answers leave behind may show in the later ones
+                for nm, _b in sets[j][:2]:
+                    read_forms(ch, nm, 'utf8')
+                    read_forms(ch, nm.rsplit('/', 1)[-1], 'utf8')
+                try:
+                    [fl.path for fl in ch.walk_folder('')]
+                except Exception:      # noqa: BLE001 - judged below on the finished chain
+                    pass
             ch.add_sys(builts[j].fs[kind], pfx, priority=prio)
             if prio:
                 order.insert(0, (kind, j, pfx))
